@@ -137,5 +137,25 @@ _R910 = {
  "C18": " exp up to |x| = 870, logarithms next to 1; many-digit arguments down to 1e-45; zero-is-zero (28 zero-valued expressions under the whole family).",
  "C19": " Layouts of names only; arguments that are not a time are refused.",
 }
+_R1112 = {
+ "C01": " Shapes with many diagnostics and many look-aheads in one text.",
+ "C02": " Operator ladders and chains of 5-16 operators; stray characters at any token boundary in every layout; 2-65 536 line breaks before a postfix.",
+ "C03": " Misuse on a zero-value Runner; calls through null receivers; null for slice parameters.",
+ "C04": " Host-built decimals (34-digit, 60-digit, context-free) at every place in the data and under every operator; a local equals what it was bound to.",
+ "C05": " Context-free and 60-digit host decimals with their negations; one number in many exponent spellings.",
+ "C06": " Selections whose value is dropped; host objects whose types carry String/Len/IsZero/Error are truthy and handed back unchanged.",
+ "C07": " runner-without-map (locals across evaluations, lists of up to 4097 elements), argument-evaluated-once (every builtin, 1-3 arguments, five value kinds), two-maps-in-turn.",
+ "C08": " Sibling host functions (closures of one literal, method values, look-alike parameter types); names that are nearly builtins; recording context: keys looked up behind the caller's back are probed with values.",
+ "C09": " Long lists binding and reading locals and trees the analysis refuses among the hot trees; every hot tree analysed by every goroutine in the cold start; one outcome known by construction.",
+ "C10": " Dotted paths of 5-300 segments; 26 pairs of names colliding under eight common 32-bit string hashes.",
+ "C11": " argument-by-path (26 values x 12 parameter kinds x 9 routes), f(...) without arguments, returned-error-any-signature, float-parameter-sweep (480 000 short decimals against strconv).",
+ "C12": " Literals as conditions and selection operands; malformed literals behind member names on the next line.",
+ "C15": " Escapes where a name is being read.",
+ "C16": " builtin-not-shadowed (host functions stored under builtin names); types-with-methods (structs, named maps and slices with String/Error/Len/MarshalJSON; zero instants through every member route).",
+ "C17": " Blanks at the edges of patterns.",
+ "C18": " Blank texts are not numeric; toInt of numeric text; max/min over spread lists.",
+ "C19": " now() strictly inside the bracket of virtual clock readings at arbitrary nanoseconds; blanks at the edges of layouts.",
+ "C20": " Host-built decimals wider than 34 digits bound to locals.",
+}
 for _i in CLAIMED:
-    CLAIMED[_i]["text"] += _MORE.get(_i, "") + _R78.get(_i, "") + _R910.get(_i, "") + _HOST
+    CLAIMED[_i]["text"] += _MORE.get(_i, "") + _R78.get(_i, "") + _R910.get(_i, "") + _R1112.get(_i, "") + _HOST
